@@ -104,7 +104,9 @@ func (n *RawNode) newContext() context.Context {
 // close this node.
 func (n *RawNode) close() error {
 	// important to cancel first to stop goroutines
-	n.cancel()
+	if n.cancel != nil {
+		n.cancel()
+	}
 	vEmit("NodeCancel", n.id, 0)
 	if n.conn == nil {
 		return nil
